@@ -56,6 +56,7 @@ REQUIRED = ["documents_converted", "rows_compared", "nested_splits", "empty_firs
             "path_converted_again_after_rewrite", "with_comments", "with_colours",
             "deep_documents", "long_branches", "densely_commented_long_documents",
             "documents_with_zero_radius_points", "paths_spelled_through_links_or_relative",
+            "documents_of_4096k_points",
             "prefixes_tried", "prefixes_rejected",
             "corruptions_tried", "corruptions_rejected", "entry_from_stream", "entry_convert",
             "entry_call", "entry_stream_file", "entry_stream_reader", "comment_invariance_checked", "tap_parser_raise"]
@@ -144,6 +145,12 @@ def gen_model(seed, shape="generic"):
                 alts.append([("pt", point())])
             cur.append(("split", alts))
             cur = cont
+    elif shape.startswith("block"):
+        # a total point count on / next to a multiple of 4096 ("block4096", "block8192", ...)
+        total = int(shape[5:])
+        m1 = int(rng.integers(1, 40))
+        top = [("pt", point()) for _ in range(total - m1 - 1)]
+        top.append(("split", [[("pt", point()) for _ in range(m1)], [("pt", point())]]))
     elif shape == "long":
         m = int(rng.choice([1200, 2500, 5000]))
         top = [("pt", point()) for _ in range(m)]
@@ -238,7 +245,7 @@ def render(model, rseed, *, comments=True, colours=True, dense=False):
     def maybe_comment(p):
         if comments and rng.random() < (max(p, 0.9) if dense else p):
             c = str(rng.choice(["a comment", "( | ) 1 2 3", "Root", "R-1-2", "",
-                                "tab\there ; again"]))
+                                "tab\there ; again", "tip a)", "(see note", ")))", "| ( ("]))
             if dense:
                 c += " ; (7 7 7 1) removed, 1281, R-2 " * int(rng.integers(1, 4))
             toks.append("; " + c + "\n")
@@ -414,6 +421,9 @@ def check_doc(ctx, case, tmp):
         ctx.count("with_colours")
     if case["shape"] == "long":
         ctx.count("long_branches")
+    if case["shape"].startswith("block"):
+        ctx.count("documents_of_4096k_points" if model["npoints"] % 4096 == 0
+                  else "documents_next_to_4096k_points")
     if model.get("repeated_points"):
         ctx.count("documents_with_repeated_points")
     if model.get("zero_radius_points"):
@@ -562,6 +572,9 @@ def run(ctx):
                                              "stream_file", "stream_reader"]))}
             if k % 400 == 207:
                 case["dense"] = True
+            if k % 400 == 107 and (ctx.shard % 2 == 0 or not ctx.quick):
+                case["shape"] = shape = "block" + str([4096, 8192, 4095, 4097, 12288, 4096, 8191,
+                                                       8193][(ctx.shard // 2 + k // 400) % 8])
             npts = gen_model(case["seed"], shape)["npoints"]
             ctx.case(case, nontrivial=npts >= 2, klass="doc/" + shape)
             execute(ctx, case)
